@@ -181,9 +181,24 @@ def obj_to_ref(d):
     return g
 
 
+class PastEnd(Exception):
+    """The real decoder asked for bytes beyond the end of the message."""
+
+
+class GuardMessage(Message):
+    """Message that refuses to invent zero bytes past its end (Message.get_bytes pads silently; a
+    misaligned decoder would otherwise loop over a garbage 32-bit pair count for hours)."""
+
+    def get_bytes(self, n):
+        pos = self.packet.tell()
+        if n > len(self.packet.getvalue()) - pos:
+            raise PastEnd()
+        return Message.get_bytes(self, n)
+
+
 def unpack_real(wire):
     """Decode with the real code; returns (ref-form dict, consumed_ok)."""
-    m = Message(wire)
+    m = GuardMessage(wire)
     d = SFTPAttributes._from_msg(m)
     tail_ok = (m.get_remainder() == R.enc_uint32(SENTINEL))
     return obj_to_ref(d), tail_ok
@@ -228,6 +243,8 @@ def run_case(a):
         unpack_bad = compare(a, got)
         if unpack_bad is None and not tail_ok:
             unpack_bad = ("not-exactly-consumed", "")
+    except PastEnd:
+        unpack_bad = ("reads-past-end-of-structure", "")
     except Exception as e:
         unpack_bad = ("exception-" + type(e).__name__, "")
         info["unpack_error"] = repr(e)
@@ -240,6 +257,8 @@ def run_case(a):
         rt_bad = compare(a, got, lenient)
         if rt_bad is None and not tail_ok:
             rt_bad = ("not-exactly-consumed", "")
+    except PastEnd:
+        rt_bad = ("reads-past-end-of-structure", "")
     except Exception as e:
         rt_bad = ("exception-" + type(e).__name__, "")
         info["roundtrip_error"] = repr(e)
